@@ -1,6 +1,28 @@
 /-
   The invariant `BInv` of the ACTION-GRANULARITY model (CachedModel/LayerB.lean) and its preservation by every
   atomic action of every thread (`binv_step`), hence at every reachable state of every interleaving (`binv_reach`).
+
+  Layout
+    1  definitions: `Reach`, `pendingSub`, `pendingAdd`, fresh / used ids, `BInv`
+    2  the three programs as relations (`WTrans`, `STrans`, `CTrans`: one constructor per branch of `workerAct`,
+       `sweeperAct`, `clientAct`) with `workerAct_trans`, `sweeperAct_trans`, `clientAct_trans`
+    3  frame facts (`applyEvict`, `poolAdd`, `consumerStep`)
+    4  `LockF`   the lock conjuncts in functional form: `wuOwner = lockOf w sw`, `ttlOwner = sw.shard?`
+    5  `PosInv`  positive weights in queue / clients / worker locals
+    6  `IdInv`   fresh ids (counted by `occ`) are distinct, below `nextId`, uncharged before `kw.insert`, and are
+                 no thread's handle into `kw` (`usedIds`); `addCharged`
+    7  `SumInv`  `kwNoDup`, `positive`, the accounting identity `sum`, victims in hand, `staleSpace`
+    8  `binv_iff : BInv b ↔ LockF b ∧ PosInv b ∧ IdInv b ∧ SumInv b ∧ maxFixed`, `binv_init`, one lemma per thread
+       (`binv_workerAct`, `binv_sweeperAct`, `binv_clientAct`, `binv_issue`, `binv_consumer`, `binv_advance`),
+       `binv_step`, `binv_reach`
+
+  Conjuncts of `BInv` beyond the ones asked for (each was needed):
+    * `addCharged`  between `kw.insert` and `wu.add` the new id is still charged at the weight to be added — without
+                    it the total could dip below zero (the sweeper could `wu.sub` the new key before its `wu.add`);
+                    it holds because the id is FRESH: no store entry, expiry-index entry, sweeper or client local
+                    names it (`freshIds`, the `usedIds` part);
+    * `staleSpace`  the free space read at `wu.space` and compared later (`sampleInit`, `fill`) is still available;
+    * `sweepEntry`  at `sweep.entry` there is an unvisited entry (else the shard lock would never be dropped).
 -/
 import CachedModel.LayerB
 import CachedProofs.Lemmas.Weights
